@@ -205,7 +205,28 @@ def _check_param_store(ctx, repo):
             alts = value_alternatives(scope, f.node, enclosing_stmt(n))
             known_not_none = any(says_not_none(e, pol, scope.id) for e, pol in facts)
             live = [(v, cs) for v, cs in alts if not (known_not_none and isinstance(v, ast.Constant) and v.value is None)]
-            ok = bool(live) and all(any(not_reserved(a, ap) for t, pl in cs for a, ap in split_conj(t, pl)) for v, cs in live)
+
+            def excluded(v, cs):
+                if any(not_reserved(a, ap) for t, pl in cs for a, ap in split_conj(t, pl)):
+                    return True
+                # the scope is what another method of the class returns for this key: every non-None result of that method must
+                # have excluded parameter names
+                if isinstance(v, ast.Call) and isinstance(v.func, ast.Attribute) and dotted(v.func.value) == "self" and v.func.attr in kcls_methods:
+                    g = kcls_methods[v.func.attr]
+                    gp = [p_ for p_ in g.params() if p_ != "self"]
+                    kidx = next((i_ for i_, a_ in enumerate(v.args) if isinstance(a_, ast.Name) and a_.id == kparam), None)
+                    if kidx is None or kidx >= len(gp):
+                        return False
+                    gk = gp[kidx]
+                    from ..flow import return_alts
+                    res = [(facts_, val_) for facts_, val_, _r in return_alts(g.node) if not (known_not_none and (val_ is None or (isinstance(val_, ast.Constant) and val_.value is None)))]
+
+                    def nr(e, pol):
+                        return isinstance(e, ast.Compare) and len(e.ops) == 1 and src(e.left) == gk and "reserved_fn_symbols" in src(e.comparators[0]) and \
+                            ((isinstance(e.ops[0], ast.NotIn) and pol) or (isinstance(e.ops[0], ast.In) and not pol))
+                    return bool(res) and all(any(nr(e, pol) for e, pol in facts_) for facts_, _v in res)
+                return False
+            ok = bool(live) and all(excluded(v, cs) for v, cs in live)
         ctx.ob("C03-R7", f.fq, f"the store `{src(n)[:40]}` into an enclosing scope happens only for names that are not parameter names", ok, node=n, construct="scope walk for a parameter name",
                msg="a store to x, y or z searches the enclosing scopes first: a callee that assigns to a parameter name it did not receive overwrites its CALLER's argument (or a global of that name) instead of creating its own")
 
